@@ -7,6 +7,7 @@ pub mod props;
 pub mod refwire;
 pub mod w_algo;
 pub mod w_dns;
+pub mod w_kalman;
 pub mod w_keys;
 pub mod w_ntske;
 pub mod w_ptp;
